@@ -1250,6 +1250,8 @@ def run_l3(ctx, TC=None):
             s.update(auto=auto, rweight=None, prior=(rep == 1), nbins=irng0.choice([1, 2]), npatch=irng0.choice([2, 3]), zmin=0.2, zmax=0.6,
                      spacing_f=irng0.choice([0.8, 1.5]), unit=irng0.choice(["arcmin", "deg", "rad"]), cosmo=None, spreads=(0.3, 0.3),
                      sizes=(12, 12), count_rr=True, rands="both", flavour="ignored", ign=dict(ig), workers=irng0.choice([1, 1, 2]))
+            if ctx.quick() and not auto and len(specs) % 2:
+                s["rands"] = "unk"      # DD and DR: the unknown sample and its randoms (quick tier: half of the probes)
             specs.append(s)
     for cid, spec in enumerate(specs):
         try:
